@@ -148,7 +148,7 @@ _RECV = ["pdus", "nest-not", "nest-seq", "tag-run", "len-run", "huge-length", "c
 
 
 def check_family(entry: str, member: t.Callable[[int], t.Any], label: str, ctx: Ctx, step: int = 2, lines: bool = False,
-                 line_sizes: t.Sequence[int] = (16, 32, 64, 128), info: t.Optional[t.Dict[str, t.Any]] = None,
+                 line_sizes: t.Sequence[int] = (8, 16, 32, 64, 128), info: t.Optional[t.Dict[str, t.Any]] = None,
                  max_points: int = 400) -> t.List[Violation]:
     out: t.List[Violation] = []
     r = cost.ramp(entry, member, start=4, step=step, max_len=MAX_LEN, stop_s=0.05, alarm_s=6, max_points=max_points)
@@ -177,13 +177,16 @@ def check_family(entry: str, member: t.Callable[[int], t.Any], label: str, ctx: 
     if lines and not out and not suspicious:
         counts = cost.count_lines_child(entry, [member(n) for n in line_sizes])
         ctx.event("line-meter")
-        if counts is None:
-            out.append(Violation(f"line-meter-member-did-not-terminate:{label}",
-                                 f"entry {entry}: counting line events for n={list(line_sizes)} exceeded 20 s CPU; member({line_sizes[-1]}) has {len(member(line_sizes[-1]))} units"))
-        elif counts[1] > 50 and counts[3] > 10 * counts[2] and counts[2] > 10 * counts[1]:
+        done = [c for c in counts if c is not None]
+        if len(done) < len(counts):
+            # the child hit its 20 s CPU limit: inconclusive by itself (a cubic path may legitimately take that long
+            # under tracing); only the exact counts that were completed are judged
+            ctx.event("line-meter:killed-after-%d-sizes" % len(done))
+        grew = [done[i + 1] > 10 * done[i] for i in range(len(done) - 1) if done[i] > 50]
+        if len(grew) >= 2 and grew[-1] and grew[-2]:
             out.append(Violation(f"line-events-grow-faster-than-cubic:{label}",
                                  f"entry {entry}: line events for n={list(line_sizes)}: {counts}"))
-        elif counts[3] > 3 * counts[2] > 0 and counts[2] > 3 * counts[1] > 0:
+        elif len(done) >= 3 and done[-1] > 3 * done[-2] > 0 and done[-2] > 3 * done[-3] > 0:
             ctx.event("line-meter:quadratic-or-cubic")
     return out
 
@@ -283,6 +286,59 @@ class PumpSweep(Part):
         return {"entry": case["entry"], "pos": case["pos"], "pump": case["sym"], "suffix": case["suffix"], "member(3)": text_member(case)(3)}
 
 
+class ReceiveFieldSweep(Part):
+    """Complete enumeration: every str/bytes field of one message per kind (incl. control types and values, filter
+    attributes/values, credentials, referrals) is pumped with every symbol of a small class alphabet and ended with a
+    late-failure character, and the message is delivered to receive (a validation step on any field is exercised)."""
+
+    name = "receive-field-sweep"
+    exhaustive = True
+    shards = {QUICK: 16, THOROUGH: 16}
+    budget = {QUICK: 300.0, THOROUGH: 900.0}
+    SYMBOLS = ["1", "a", "A", ".", " ", "\\", "*", "(", "1.", ".1", "a ", "=", "\u00e9", "-", ";a", "\x00"]
+    SUFFIXES = ["", "x", "!", "."]
+
+    def enumerate(self, tier: str, shard: int, nshards: int) -> t.Iterable[t.Any]:
+        from .. import msgcheck
+
+        k = 0
+        for tname, tmpl in msgcheck._templates().items():
+            for path in msgcheck._leaf_paths(tmpl):
+                cur: t.Any = tmpl
+                for key in path:
+                    cur = cur[key]
+                if isinstance(cur, str) and cur in msgcheck._TAG_WORDS and isinstance(path[-1], int) and path[-1] == 0:
+                    continue
+                for sym in self.SYMBOLS:
+                    for suf in self.SUFFIXES:
+                        if k % nshards == shard:
+                            yield {"template": tname, "path": list(path), "sym": sym, "suffix": suf, "is_str": isinstance(cur, str)}
+                        k += 1
+
+    def member(self, case: t.Any) -> t.Callable[[int], bytes]:
+        from .. import msgcheck
+
+        tmpl = msgcheck._templates()[case["template"]]
+        path = tuple(case["path"])
+
+        def build(n: int) -> bytes:
+            v: t.Any = case["sym"] * n + case["suffix"]
+            if not case["is_str"]:
+                v = v.encode("utf-8")
+            return rfc4511.encode(msgcheck._set_path(tmpl, path, v))
+
+        return build
+
+    def check(self, case: t.Any, ctx: Ctx) -> t.List[Violation]:
+        ctx.event(f"template:{case['template']}")
+        ctx.nontrivial((case["template"], tuple(case["path"]), case["sym"], case["suffix"]))
+        field = ".".join(str(p) for p in case["path"] if not isinstance(p, int)) or "field"
+        return check_family("recv-server", self.member(case), f"receive:{case['template'].split('/')[0]}:{field}", ctx, max_points=40)
+
+    def sample(self, case: t.Any) -> t.Any:
+        return {"template": case["template"], "field": case["path"], "pump": case["sym"], "suffix": case["suffix"], "member(3)": self.member(case)(3).hex()}
+
+
 class KnownShapes(Part):
     """A fixed list of classic blow-up shapes for every regular expression position (enumerated)."""
 
@@ -324,7 +380,8 @@ PROP = Property(
         "characters found there or 1-3 symbols harvested at run time from the parsers' own regular expressions, and the "
         "suffix keeps the rest, truncates, drops the closing parenthesis/quote or inserts a foreign character (late "
         "failure); for receive: many PDUs, deep nesting, tag/length octet runs, huge declared lengths, long control/"
-        "filter/substring lists, byte-wise delivery; plus a complete sweep (every position x 29 class symbols x 6 suffix "
+        "filter/substring lists, byte-wise delivery, and a complete sweep pumping every str/bytes field of one message per kind "
+        "with 16 class symbols x 4 endings; plus a complete sweep (every position x 29 class symbols x 6 suffix "
         "modes) over one feature-rich sentence per entry point, and a fixed list of 37 classic shapes. Oracle (scaling relation): "
         "(b) members are ramped n=4,6,8.. (<= 400 units) in a forked child killed by a CPU-time alarm; a family "
         "violates the property if CPU time at least doubled on each of the last three +2 steps ending above 50 ms AND a "
@@ -333,7 +390,7 @@ PROP = Property(
         "Non-trivial = a family whose member fails to parse (late failure) - distinct by (entry, pump context, pump, "
         "suffix mode) - and all receive families / known shapes."
     ),
-    parts=[TextFamilies(), PumpSweep(), ReceiveFamilies(), KnownShapes()],
+    parts=[TextFamilies(), PumpSweep(), ReceiveFamilies(), ReceiveFieldSweep(), KnownShapes()],
     assumptions=[
         "cost of degree <= 3 cannot double per +2 repetitions beyond n = 10, and a polynomial parser needs far less than 1 ms for 400 units, so the criterion has a > 1000x margin; CPU time (not wall time) is measured",
         "families with period > 8 or needing three coordinated pumps are outside the search",
